@@ -268,7 +268,9 @@ def assemble(unit_cfg, src="/repo/src"):
     out.add("verus! {\n")
     for p in unit_cfg.get("prelude", []):
         out.add("// ---- %s\n" % p)
+        base = out.line
         out.add(open(os.path.join(ROOT, p)).read() + "\n")
+        side.setdefault("sections", []).append({"name": p, "line_start": base, "line_end": out.line - 1})
 
     # typing lemmas (generated, proved): one per f32 field of every extracted struct
     f32_fields = []
@@ -291,7 +293,9 @@ def assemble(unit_cfg, src="/repo/src"):
 
     for p in unit_cfg.get("spec", []):
         out.add("// ---- %s\n" % p)
+        base = out.line
         out.add(open(os.path.join(ROOT, p)).read() + "\n")
+        side.setdefault("sections", []).append({"name": p, "line_start": base, "line_end": out.line - 1})
 
     canary_specs = []
     for it in ex["items"]:
